@@ -273,7 +273,15 @@ class Engine(Executor):
 
     def s_Try(self, stmt: ast.Try, st: State):
         if stmt.finalbody:
-            raise Unsupported("try/finally")
+            # try/.../finally: the final block runs after every outcome of the rest; if it completes normally the
+            # pending outcome (return / raise / break / continue / fall-through) goes on, otherwise its own outcome wins
+            inner = ast.Try(body=stmt.body, handlers=stmt.handlers, orelse=stmt.orelse, finalbody=[])
+            ast.copy_location(inner, stmt)
+            out_f: List[Tuple[State, Ctl]] = []
+            for s, ctl in (self.s_Try(inner, st) if (stmt.handlers or stmt.orelse) else self.exec_block(stmt.body, st)):
+                for s2, c2 in self.exec_block(stmt.finalbody, s):
+                    out_f.append((s2, ctl if c2 is None else c2))
+            return out_f
         out: List[Tuple[State, Ctl]] = []
         for s, ctl in self.exec_block(stmt.body, st):
             if ctl is None:
